@@ -48,6 +48,7 @@ Inductive oev :=
 | OC (idx : N) (c : option N) (ok : bool) (* approval callback: intent it was given, certificate, its answer *)
 | OT (idx : N)                           (* a complete intent communication written on the target connection *)
 | OTF                                    (* a write on the target connection that failed *)
+| OPA                                    (* the scripted target acts on a communication it read: answers, or closes instead *)
 | OX                                     (* bytes that do not parse *)
 | OD (conf : bool)                       (* answer written on the delegate connection *)
 | OTC (idx : N) (pcert ok : bool)        (* target.checkIntent *)
@@ -89,6 +90,24 @@ Fixpoint all2 {A B} (f : A -> B -> bool) (a : list A) (b : list B) : bool :=
   | _, _ => false
   end.
 
+(* One request's model trace against the observed events.  In the model the answer to the delegate is computed
+   from the target's reply, i.e. after the target acted: a delivered communication must therefore be followed by
+   the scripted target's action (OPA) before anything else the principal does. *)
+Fixpoint p_match (tb : list intent) (want : url) (tr : list event) (o : list oev) : bool :=
+  match tr with
+  | [] => match o with [] => true | _ => false end
+  | ToTarget i true :: tr' =>
+      match o with
+      | OT idx :: OPA :: o' => look_is tb idx i && p_match tb want tr' o'
+      | _ => false
+      end
+  | e :: tr' =>
+      match o with
+      | x :: o' => ev_match tb want e x && p_match tb want tr' o'
+      | [] => false
+      end
+  end.
+
 (* the model run, request by request, against the observation; every table index must resolve *)
 Fixpoint p_compare (tb : list intent) (st : pstate) (rs : list creq) (obs : list (list oev)) : bool :=
   match rs, obs with
@@ -98,7 +117,7 @@ Fixpoint p_compare (tb : list intent) (st : pstate) (rs : list creq) (obs : list
       | None => false
       | Some i =>
           let '(st', tr) := principal_step st (mkReq i dec su rep) in
-          all2 (ev_match tb (target_url i)) tr o && p_compare tb st' rs' obs'
+          p_match tb (target_url i) tr o && p_compare tb st' rs' obs'
       end
   | _, _ => false
   end.
